@@ -243,7 +243,20 @@ def run_expr(c):
         out['ir'] = export_ir(e._ir, {})
         out['irtyp'] = type_to_neutral(e._ir.typ)
     except Outside as ex:
-        return {'outside': str(ex)}
+        # outside the exported subset (no model counterpart): the implementation-only clause still applies - the type the front end
+        # reports must be the type recomputed from the emitted IR (hail's own type equality, no export needed)
+        res = {'outside': str(ex)}
+        try:
+            e._ir.compute_type({}, None, True)
+            res['deep_equal'] = bool(e._ir._type == e.dtype and e._ir.typ == e.dtype)
+            if not res['deep_equal']:
+                res['types'] = [str(e.dtype), str(e._ir.typ), str(e._ir._type)]
+        except AssertionError as ex2:
+            res['deep_exc'] = {'type': 'AssertionError', 'msg': str(ex2)[:300], 'where': where_raised(ex2)}
+        except Exception:  # noqa: BLE001  - anything else here is a limitation of the deep pass on constructs it was not written for
+            pass
+        res['text'] = str(e._ir)[:1500]
+        return res
     out['text'] = str(e._ir)[:2000]
     try:
         e._ir.compute_type({}, None, True)
